@@ -1,3 +1,4 @@
+\* one channel, both surfaces: 12,324 distinct / 192,592 generated states, depth 10, ~15 s with 8 idle workers
 SPECIFICATION Spec
 CONSTANTS
   Chans = {"c1"}
